@@ -23,6 +23,12 @@ type commandPipeline struct {
 	seq       uint64
 	proposals map[uint64]*commandProposal
 	applier   func(*pb.RaftCmdRequest) (*pb.RaftCmdResponse, error)
+	// proposedHere reports whether the peer that stamped a command header
+	// (validateCommand sets Header.PeerId) is hosted by this store. Request ids
+	// are only unique per store, so an entry proposed elsewhere must never
+	// complete a local waiter that happens to use the same id. nil accepts every
+	// entry (pipeline used without a store).
+	proposedHere func(peerID uint64) bool
 }
 
 func newCommandPipeline(applier func(*pb.RaftCmdRequest) (*pb.RaftCmdResponse, error)) *commandPipeline {
@@ -102,12 +108,16 @@ func (cp *commandPipeline) applyEntries(entries []myraft.Entry) error {
 			return fmt.Errorf("commandPipeline: apply without handler")
 		}
 		resp, applyErr := cp.applier(req)
+		requestID := req.GetHeader().GetRequestId()
 		if applyErr != nil {
-			requestID := req.GetHeader().GetRequestId()
-			cp.completeProposal(requestID, nil, applyErr)
+			if cp.proposedHere == nil || cp.proposedHere(req.GetHeader().GetPeerId()) {
+				cp.completeProposal(requestID, nil, applyErr)
+			}
 			return fmt.Errorf("commandPipeline: apply request %d failed: %w", requestID, applyErr)
 		}
-		cp.completeProposal(req.GetHeader().GetRequestId(), resp, nil)
+		if cp.proposedHere == nil || cp.proposedHere(req.GetHeader().GetPeerId()) {
+			cp.completeProposal(requestID, resp, nil)
+		}
 	}
 	return nil
 }
